@@ -1,4 +1,406 @@
+mod lattice;
+mod model;
+mod spec;
+use mc::report::{load_replay, run_replay};
+use mc::{Bounds, Known, Report, RunStats};
+use model::*;
+use rayon::prelude::*;
+use spec::*;
+
+fn pct(x: u128) -> u128 {
+    // x in units of 1e-9
+    x * 1_000_000_000
+}
+
+fn thresholds(total: u64) -> Vec<(&'static str, Th)> {
+    let mut v: Vec<(&'static str, Th)> = vec![
+        ("count1", Th::Count(1)),
+        ("count2", Th::Count(2)),
+        ("countT", Th::Count(total)),
+        ("pct50", Th::Pct(pct(500_000_000))),
+        ("pct51", Th::Pct(pct(510_000_000))),
+        ("pct66.7", Th::Pct(pct(667_000_000))),
+        ("pct100", Th::Pct(pct(1_000_000_000))),
+        ("q50-33.3", Th::Quorum { t: pct(500_000_000), q: pct(333_333_333) }),
+        ("q51-50", Th::Quorum { t: pct(510_000_000), q: pct(500_000_000) }),
+        ("q66.7-40", Th::Quorum { t: pct(667_000_000), q: pct(400_000_000) }),
+        ("q100-100", Th::Quorum { t: pct(1_000_000_000), q: pct(1_000_000_000) }),
+        ("q50-tiny", Th::Quorum { t: pct(500_000_000), q: pct(1) }),
+    ];
+    v.retain(|(_, t)| match t {
+        Th::Count(w) => *w >= 1 && *w <= total,
+        _ => true,
+    });
+    v.dedup_by(|a, b| a.1 == b.1);
+    v
+}
+
+fn weight_vectors() -> Vec<(&'static str, Vec<(u8, u64)>)> {
+    vec![
+        ("w111", vec![(0, 1), (1, 1), (2, 1)]),
+        ("w011", vec![(0, 0), (1, 1), (2, 1)]),
+        ("w012", vec![(0, 0), (1, 1), (2, 2)]),
+        ("w123", vec![(0, 1), (1, 2), (2, 3)]),
+        ("w13", vec![(0, 1), (1, 3)]),
+        ("w001", vec![(0, 0), (1, 0), (2, 1)]),
+    ]
+}
+
+fn configs(prop: &str, thorough: bool) -> Vec<(Cfg, Option<usize>)> {
+    let mut out: Vec<(Cfg, Option<usize>)> = vec![];
+    match prop {
+        "C03" => {
+            let p = Props { c03: true, ..Default::default() };
+            let mut i = 0usize;
+            for flex in [false, true] {
+                for (wn, wv) in weight_vectors() {
+                    let total: u64 = wv.iter().map(|x| x.1).sum();
+                    for (tn, th) in thresholds(total) {
+                        for per in [Per::H(2), Per::T(2 * DT)] {
+                            i += 1;
+                            // quick: a covering subset (every threshold kind x every weight vector at least once, both contracts)
+                            if !thorough && i % 11 != 0 && !(wn == "w011" && (tn == "pct51" || tn == "q50-33.3" || tn == "count1") && per == Per::H(2)) {
+                                continue;
+                            }
+                            let mut c = Cfg::base(&format!("C03/{}/{wn}/{tn}/{}", if flex { "flex" } else { "fixed" }, if per == Per::H(2) { "height" } else { "time" }), flex);
+                            c.props = p.clone();
+                            c.voters = wv.clone();
+                            c.th = th;
+                            c.period = per;
+                            c.proposers = vec![0, 1, 3];
+                            c.latest = vec![LatestA::Unset, LatestA::Shorter, LatestA::AlreadyExpired];
+                            c.voters_acting = vec![0, 1, 2, 3];
+                            c.executors = vec![0, 3];
+                            c.closers = vec![1, 3];
+                            c.blocks = 4;
+                            c.exec_iff = true;
+                            out.push((c, None));
+                        }
+                    }
+                }
+            }
+            // two concurrent proposals
+            let two: Vec<(&str, Vec<(u8, u64)>, Th)> = vec![
+                ("w111/pct51", vec![(0, 1), (1, 1), (2, 1)], Th::Pct(pct(510_000_000))),
+                ("w012/q50-33.3", vec![(0, 0), (1, 1), (2, 2)], Th::Quorum { t: pct(500_000_000), q: pct(333_333_333) }),
+                ("w123/count2", vec![(0, 1), (1, 2), (2, 3)], Th::Count(2)),
+                ("w011/pct100", vec![(0, 0), (1, 1), (2, 1)], Th::Pct(pct(1_000_000_000))),
+                ("w13/q66.7-40", vec![(0, 1), (1, 3)], Th::Quorum { t: pct(667_000_000), q: pct(400_000_000) }),
+                ("w111/q100-100", vec![(0, 1), (1, 1), (2, 1)], Th::Quorum { t: pct(1_000_000_000), q: pct(1_000_000_000) }),
+            ];
+            for (k, (n, wv, th)) in two.into_iter().enumerate() {
+                for flex in [false, true] {
+                    if !thorough && !(k < 2 && flex == (k == 1)) {
+                        continue;
+                    }
+                    let mut c = Cfg::base(&format!("C03/two-proposals/{}/{n}", if flex { "flex" } else { "fixed" }), flex);
+                    c.props = p.clone();
+                    c.voters = wv.clone();
+                    c.th = th;
+                    c.max_props = 2;
+                    c.proposers = vec![0, 1];
+                    c.votes = if thorough { vec![VoteA::Yes, VoteA::No, VoteA::Abstain, VoteA::Veto] } else { vec![VoteA::Yes, VoteA::No, VoteA::Abstain] };
+                    c.voters_acting = vec![0, 1, 2];
+                    c.executors = vec![3];
+                    c.closers = vec![3];
+                    c.blocks = 3;
+                    c.exec_iff = true;
+                    out.push((c, None));
+                }
+            }
+        }
+        "C05" => {
+            let p = Props { c05: true, ..Default::default() };
+            let all_latest = vec![LatestA::Unset, LatestA::Shorter, LatestA::Longer, LatestA::Never, LatestA::OtherKind];
+            let ths: Vec<(&str, Th)> = vec![
+                ("count2", Th::Count(2)),
+                ("pct51", Th::Pct(pct(510_000_000))),
+                ("q51-50", Th::Quorum { t: pct(510_000_000), q: pct(500_000_000) }),
+            ];
+            let mut k = 0;
+            for flex in [false, true] {
+                for (tn, th) in &ths {
+                    for ex in [Exec::Anyone, Exec::Member, Exec::Only(3)] {
+                        if !flex && ex != Exec::Anyone {
+                            continue;
+                        }
+                        for per in [Per::H(2), Per::T(2 * DT)] {
+                            k += 1;
+                            if !thorough && !(k % 5 == 1) {
+                                continue;
+                            }
+                            // (a) tagged messages, failing receiver, retries
+                            let mut c = Cfg::base(&format!("C05/{}/{tn}/{:?}/{}/tags+faults", if flex { "flex" } else { "fixed" }, ex, if per == Per::H(2) { "height" } else { "time" }), flex);
+                            c.props = p.clone();
+                            c.actors = vec!["A", "B", "Z", "X"];
+                            c.voters = vec![(0, 1), (1, 1), (2, 0)];
+                            c.th = *th;
+                            c.period = per;
+                            c.executor = ex;
+                            c.max_props = 2;
+                            c.kinds = vec![PK::Tag1, PK::Tag2];
+                            c.latest = all_latest.clone();
+                            c.votes = vec![VoteA::Yes, VoteA::No];
+                            c.proposers = vec![0];
+                            c.voters_acting = vec![1, 2, 3];
+                            c.executors = vec![0, 2, 3];
+                            c.closers = vec![2, 3];
+                            c.blocks = 3;
+                            c.max_faults = if thorough { 2 } else { 1 };
+                            out.push((c, None));
+                        }
+                    }
+                }
+            }
+            // (b) re-entrancy and nesting, funding
+            for flex in [false, true] {
+                for (ki, kinds) in [vec![PK::Reenter, PK::Tag1], vec![PK::Tag1, PK::ExecPrev], vec![PK::Tag1, PK::ClosePrev], vec![PK::Pay, PK::Tag1]].into_iter().enumerate() {
+                    for ex in [Exec::Anyone, Exec::Only(3)] {
+                        if !flex && ex != Exec::Anyone {
+                            continue;
+                        }
+                        if !thorough && !(flex == (ki % 2 == 0) && ex == Exec::Anyone) {
+                            continue;
+                        }
+                        let mut c = Cfg::base(&format!("C05/{}/{:?}/{:?}/reentrancy", if flex { "flex" } else { "fixed" }, kinds, ex), flex);
+                        c.props = p.clone();
+                        c.voters = vec![(0, 1), (1, 1)];
+                        c.actors = vec!["A", "B", "Z", "X"];
+                        c.th = Th::Count(2);
+                        c.executor = ex;
+                        c.max_props = if thorough { 3 } else { 2 };
+                        c.kinds = kinds.clone();
+                        c.latest = vec![LatestA::Unset];
+                        c.votes = vec![VoteA::Yes, VoteA::No];
+                        c.proposers = vec![0];
+                        c.voters_acting = vec![1, 3];
+                        c.executors = vec![0, 3];
+                        c.closers = vec![3];
+                        c.blocks = 3;
+                        c.max_fund = if kinds.contains(&PK::Pay) { 2 } else { 0 };
+                        c.max_faults = if thorough { 1 } else { 0 };
+                        out.push((c, None));
+                    }
+                }
+            }
+        }
+        "C06" => {
+            let p = Props { c06: true, ..Default::default() };
+            // fixed: voter lists accepted at instantiation
+            for (n, wv) in [
+                ("A1,B1,C1", vec![(0u8, 1u64), (1, 1), (2, 1)]),
+                ("A0,B1,C2", vec![(0, 0), (1, 1), (2, 2)]),
+                ("A1,A2,B1(repeated)", vec![(0, 1), (0, 2), (1, 1)]),
+                ("A0,B1,B2(repeated)", vec![(0, 0), (1, 1), (1, 2)]),
+                ("A1(single)", vec![(0, 1)]),
+                ("A0,B0,C1", vec![(0, 0), (1, 0), (2, 1)]),
+            ] {
+                for th in [Th::Count(1), Th::Pct(pct(510_000_000))] {
+                    let mut c = Cfg::base(&format!("C06/fixed/{n}/{:?}", th), false);
+                    c.props = p.clone();
+                    c.voters = wv.clone();
+                    c.th = th;
+                    c.max_props = 2;
+                    c.proposers = vec![0, 1, 3];
+                    c.votes = vec![VoteA::Yes, VoteA::No];
+                    c.voters_acting = vec![0, 1, 2, 3];
+                    c.executors = vec![3];
+                    c.closers = vec![3];
+                    c.blocks = 3;
+                    out.push((c, None));
+                }
+            }
+            // flex: group edits placed before / in the same block as / after proposals and votes
+            let edits = vec![
+                GroupEdit { remove: vec![1], add: vec![] },
+                GroupEdit { remove: vec![], add: vec![(3, 2)] },
+                GroupEdit { remove: vec![], add: vec![(0, 3)] },
+                GroupEdit { remove: vec![], add: vec![(2, 0)] },
+                GroupEdit { remove: vec![], add: vec![(1, 5)] },
+            ];
+            for (n, wv, th) in [
+                ("A1,B5,C1/count2", vec![(0u8, 1u64), (1, 5), (2, 1)], Th::Count(2)),
+                ("A0,B1/pct51", vec![(0, 0), (1, 1)], Th::Pct(pct(510_000_000))),
+                ("A1,B5,C1/q51-50", vec![(0, 1), (1, 5), (2, 1)], Th::Quorum { t: pct(510_000_000), q: pct(500_000_000) }),
+            ] {
+                if !thorough && n.starts_with("A1,B5,C1/q") {
+                    continue;
+                }
+                let mut c = Cfg::base(&format!("C06/flex/{n}/edits"), true);
+                c.props = p.clone();
+                c.actors = vec!["A", "B", "C", "X", "ADM"];
+                c.group_admin = 4;
+                c.voters = wv.clone();
+                c.th = th;
+                c.max_props = if thorough { 2 } else { 1 };
+                c.proposers = vec![0, 3];
+                c.votes = vec![VoteA::Yes, VoteA::No];
+                c.voters_acting = vec![0, 1, 2, 3];
+                c.executors = vec![3];
+                c.closers = vec![3];
+                c.blocks = if thorough { 3 } else { 2 };
+                c.edits = edits.clone();
+                c.editors = vec![4, 0];
+                c.max_edits = if thorough { 3 } else { 2 };
+                out.push((c, None));
+            }
+        }
+        "C15" => {
+            let p = Props { c15: true, ..Default::default() };
+            let ths: Vec<(&str, Th)> = vec![
+                ("count3", Th::Count(3)),
+                ("pct51", Th::Pct(pct(510_000_000))),
+                ("q51-50", Th::Quorum { t: pct(510_000_000), q: pct(500_000_000) }),
+            ];
+            let mut k = 0;
+            for (gn, wv) in [("A1,C3", vec![(0u8, 1u64), (2, 3)]), ("A1,B1,C1", vec![(0, 1), (1, 1), (2, 1)])] {
+                for (tn, th) in &ths {
+                    if let Th::Count(w) = th {
+                        if *w > wv.iter().map(|x| x.1).sum::<u64>() {
+                            continue;
+                        }
+                    }
+                    for refund in [true, false] {
+                        for cw20 in [false, true] {
+                            k += 1;
+                            if !thorough && k % 4 != 1 && !(gn == "A1,C3" && *tn == "pct51" && refund) {
+                                continue;
+                            }
+                            let mut c = Cfg::base(&format!("C15/{gn}/{tn}/{}/refund={refund}", if cw20 { "cw20" } else { "native" }), true);
+                            c.props = p.clone();
+                            c.voters = wv.clone();
+                            c.th = *th;
+                            c.deposit = if cw20 { Dep::Cw20 { amount: 2, refund } } else { Dep::Native { amount: 2, refund } };
+                            c.max_props = 2;
+                            c.kinds = vec![PK::Empty];
+                            c.proposers = vec![0, 3];
+                            c.votes = vec![VoteA::Yes, VoteA::No];
+                            c.voters_acting = vec![1, 2];
+                            c.executors = vec![0, 3];
+                            c.closers = vec![0, 3];
+                            c.blocks = 3;
+                            c.purse = 4;
+                            if cw20 {
+                                c.funds = vec![vec![], vec![(0, 1)]];
+                                c.allow_amts = vec![1, 2, 3];
+                                c.max_allow = 4;
+                            } else {
+                                c.funds = vec![vec![], vec![(0, 1)], vec![(0, 2)], vec![(0, 3)], vec![(1, 1)], vec![(0, 2), (1, 1)]];
+                            }
+                            out.push((c, None));
+                        }
+                    }
+                }
+            }
+            // a proposal whose own message spends the multisig's funds (shared pool)
+            if thorough {
+                for refund in [true, false] {
+                    let mut c = Cfg::base(&format!("C15/A1,C3/count3/native/refund={refund}/spending-proposal"), true);
+                    c.props = p.clone();
+                    c.voters = vec![(0, 1), (2, 3)];
+                    c.th = Th::Count(3);
+                    c.deposit = Dep::Native { amount: 2, refund };
+                    c.max_props = 3;
+                    c.kinds = vec![PK::Empty, PK::Pay];
+                    c.proposers = vec![0];
+                    c.votes = vec![VoteA::Yes, VoteA::No];
+                    c.voters_acting = vec![2];
+                    c.executors = vec![3];
+                    c.closers = vec![3];
+                    c.blocks = 3;
+                    c.purse = 6;
+                    c.funds = vec![vec![(0, 2)]];
+                    out.push((c, None));
+                }
+            }
+        }
+        _ => {}
+    }
+    out
+}
+
+fn describe(prop: &str) -> (&'static str, &'static str) {
+    match prop {
+        "C03" => (
+            "cw3-fixed and cw3-flex(+real cw4-group): weight vectors [1,1,1],[0,1,1],[0,1,2],[1,2,3],[1,3],[0,0,1] x thresholds AbsoluteCount{1,2,T}, AbsolutePercentage{50,51,66.7,100%}, ThresholdQuorum{(50,33.3),(51,50),(66.7,40),(100,100),(50,1e-9)} x Height/Time voting period; Propose by members (incl. zero-weight) and an outsider with latest in {none, shorter, already expired}; Vote{yes,no,abstain,veto} by everyone; Execute, Close by member and outsider; AdvanceBlock to two blocks past expiry; one proposal (full matrix) and two concurrent proposals (subset)",
+            "after every step, for every proposal: status from Proposal{id}, ListProposals and ReverseProposals agree; tally recomputed from the paged ListVotes; independent spec function in exact integer arithmetic (Passed iff yes>0 and every completion of the outstanding weight satisfies the rule at expiry / the rule itself after expiry; Rejected only if expired unpassed or no completion passes; Open only before expiry and not passing); Execute admitted iff implied Passed; Close admitted only if expired, not passing, not executed",
+        ),
+        "C05" => (
+            "proposals carrying tagged messages to a receiver stub (1 or 2, order observable), a bank send the multisig cannot afford until funded, a re-entrant Execute of itself, a nested Execute/Close of the previous proposal; up to 2 (quick) / 3 (thorough) concurrent proposals; latest in {none, shorter, longer than max, never, other kind}; Vote{yes,no}; Execute/Close by proposer, zero-weight member, outsider, Only(addr) executor; AdvanceBlock; receiver failure toggled on/off (fault bound 1 quick / 2 thorough); executor in {None, Member, Only} (flex); all three threshold kinds; both period kinds",
+            "kernel dispatch trace: each proposal's messages reach the receiver at most once over the whole history, exactly as proposed and in order, only inside an accepted Execute (top-level or nested) made while its status was Passed and by an authorised caller; failed dispatch leaves everything unchanged and the proposal executable later; Close accepted only on expired, unpassed, never-dispatched proposals and delivers nothing; per-proposal status automaton Open->{Passed,Rejected}, Passed->Executed; ids = previous max + 1, listings ordered; title/msgs/threshold/total/proposer/expiry/deposit never change; expiry <= creation + max voting period, other-kind latest refused",
+        ),
+        "C06" => (
+            "cw3-fixed voter lists incl. repeated addresses, zero weights, single voter; cw3-flex with a real cw4-group [A:1,B:5,C:1] / [A:0,B:1]: UpdateMembers (remove B, add X:2, re-weight A->3, C->0, B->5) by the group admin and by a member, placed by BFS before, in the same block as (before and after the Propose) and after each proposal and vote; Propose by member/outsider; Vote{yes,no} by everyone; AdvanceBlock",
+            "reference records the membership at the start of every block; per proposal: threshold.total_weight == sum of that snapshot; every ballot (paged ListVotes, and Vote{voter} point query agrees) carries the voter's snapshot weight; addresses absent or with weight 0 in the snapshot have no ballot except the proposer's implicit Yes; one ballot per address, recorded ballots never change; votes accepted only before expiry, on unexecuted proposals, from eligible addresses without a ballot; sum of ballots <= total; cross-checked against the group's own Member{at_height}/TotalWeight{at_height}; fixed: total == sum of ListVoters",
+        ),
+        "C15" => (
+            "cw3-flex with native deposit (2 ucosm) or cw20 deposit (2 of a real cw20-base token pulled with TransferFrom), refund_failed_proposals on/off, three threshold kinds, groups [A:1,C:3] and [A:1,B:1,C:1]; Propose with funds {none,1,2,3,other denom,two coins} / cw20 allowance {1,2,3} set by prior IncreaseAllowance; Vote{yes,no}; Execute and Close (repeated) by proposer and outsider; AdvanceBlock; 2 (3) proposals sharing the pool; finite purses",
+            "deposit ledger vs REAL bank / cw20 balances of every actor and the multisig after every step: Propose accepted only with exactly the configured coin attached (native) and moves exactly the deposit proposer->multisig; refund only to the proposer, at most once, mandatory on Execute, permitted (refunds enabled) on the Vote that makes the proposal fail or on Close, never otherwise; recoverability: from every reachable state with a failed, unrefunded proposal and refunds enabled, a bounded exhaustive search over AdvanceBlock^k (k<=4) [Vote]? (Close|Execute) by any actor must reach a state where the proposer has the deposit back",
+        ),
+        "C04" => (
+            "every total T in 0..=N (N=9 quick, 16 thorough), every tally (yes,no,abstain,veto) with sum <= T, every AbsoluteCount 1..=T, percentages/quorums at every rounding boundary i/j reachable with weights <= N (floor/ceil at 9 and at 18 decimals and their +-1 ulp neighbours), expired and not; large scope T in {2^32, 2^63, 2^64-2, 2^64-1} with counters on a boundary grid {0,1,T/3,T/2-1,T/2,T/2+1,T-1,T}",
+            "needed(w,p)=ceil(w*p) in u128; after expiry the library's decision equals the documented formula with yes>0 (percentages with <= 9 decimals) or lies between exact and one-vote-laxer (18 decimals); before expiry: backward dynamic programming over the lattice gives mustPass (all completions) / canPass (some completion): library Passed => mustPass, library Rejected => not canPass; never passed and rejected together; never Passed with yes=0; no panic for tallies <= total; current_status consistent with is_passed/is_rejected",
+        ),
+        _ => ("", ""),
+    }
+}
+
+fn run(prop: &str, tier: &str) -> i32 {
+    let thorough = tier == "thorough";
+    let known = Known::load(prop);
+    let mut rep = Report::new(prop, tier, if prop == "C04" { "cw3-lattice" } else { "cw3" });
+    let (alpha, oracle) = describe(prop);
+    rep.alphabet = alpha.into();
+    rep.oracle = oracle.into();
+    if prop == "C04" {
+        rep.bounds = "complete enumeration of the stated finite lattice (small scope) and boundary grid (large scope; completions restricted to the same grid)".into();
+        rep.assumptions = vec!["Threshold::validate (cw-utils) bounds percentages to [0.5,1] and quorum to (0,1]; only such thresholds are enumerated".into()];
+        rep.runs = lattice::run(thorough, &known);
+        return rep.finish();
+    }
+    let cfgs = configs(prop, thorough);
+    if cfgs.is_empty() {
+        eprintln!("fam-cw3 does not serve {prop}");
+        return 2;
+    }
+    rep.bounds = "every configuration is a closed system (finite proposals, capped clock, bounded edits/faults/funds) explored to fixpoint; state cap 8e6 and time cap per configuration reported if hit".into();
+    rep.assumptions = vec![
+        "kernel: atomic transactions, in-order message dispatch, sub-call rollback (cross-validated against cw-multi-test by ./check kernel-diff)".into(),
+        "small actor sets and weights; thresholds with at most 9 decimals".into(),
+        "flex multisig is instantiated one block after its group".into(),
+    ];
+    let seed = mc::report::seed();
+    let runs: Vec<RunStats> = cfgs
+        .par_iter()
+        .map(|(c, d)| {
+            let m = Cw3Model { cfg: c.clone() };
+            let b = Bounds { max_depth: *d, max_states: 8_000_000, max_secs: if thorough { 2400.0 } else { 120.0 } };
+            mc::bfs(&m, &b, &known, seed)
+        })
+        .collect();
+    rep.runs = runs;
+    rep.finish()
+}
+
 fn main() {
-    eprintln!("fam-cw3: not built yet");
-    std::process::exit(2);
+    mc::world::silence_panics();
+    let a = mc::parse_args();
+    let code = if a.cmd == "replay" {
+        let rf = load_replay(a.path.as_deref().unwrap_or(""));
+        if rf.model == "cw3-lattice" {
+            rf.actions.first().map(lattice::replay_case).unwrap_or(2)
+        } else {
+            let all: Vec<(Cfg, Option<usize>)> = configs(&rf.property, true).into_iter().chain(configs(&rf.property, false)).collect();
+            match all.into_iter().find(|(c, _)| c.name == rf.config) {
+                Some((c, _)) => run_replay(&Cw3Model { cfg: c }, &rf),
+                None => {
+                    eprintln!("machinery error: unknown config {}", rf.config);
+                    2
+                }
+            }
+        }
+    } else {
+        run(&a.cmd, &a.tier)
+    };
+    std::process::exit(code);
 }
